@@ -46,6 +46,11 @@ HISTORIES: dict[str, list[Any]] = {
     # in between is outside the property's histories, see DESIGN.md 6)
     'reset': [['train', 1], ['step'], ['reset'], ['train', 1], ['step'],
               ['reset'], ['train', 1], ['step']],
+    # a subset of the ranks drops the statistics of an iteration (no
+    # collective is implied by reset_batch): every rank still takes part in
+    # every collective of the following step
+    'partial_reset': [['train', 1], ['step'], ['train', 1], ['reset_on', [0]],
+                      ['step'], ['train', 1], ['step']],
     'three': [['train', 1], ['step'], ['train', 1], ['step'],
               ['train', 1], ['step']],
 }
